@@ -22,6 +22,8 @@ pub struct Sink<'a> {
     /// cases that are not executed at all (they aborted the process in an earlier attempt)
     pub skip: Vec<u64>,
     pub mute: bool,
+    /// after an injected fault only the hook-based snapshot is taken (the public peeks may themselves be unsafe)
+    pub core_only: bool,
     pub stream: String,
 }
 
@@ -90,7 +92,8 @@ impl<'a> Sink<'a> {
             write!(self.w, "{} => ", line).unwrap();
             self.w.flush().unwrap();
         }
-        let before = if self.ops % 7 == 0 { Some(q.snapshot()) } else { None };
+        let core_only = self.core_only;
+        let before = if self.ops % 7 == 0 && !core_only { Some(q.snapshot()) } else { None };
         let c0 = cmp_count();
         let r = catch_unwind(AssertUnwindSafe(|| apply(q, op, lk)));
         self.ops += 1;
@@ -98,7 +101,7 @@ impl<'a> Sink<'a> {
         let ok = match r {
             Ok(res) => {
                 let dt = cmp_count() - c0;
-                let snap = q.snapshot();
+                let snap = if core_only { q.snapshot_core() } else { q.snapshot() };
                 *self.size_hist.entry(q.len()).or_insert(0) += 1;
                 // distinct non-trivial: (op, pre-state) pairs where the op changed the state or returned something
                 let nontrivial = !res.ends_with("none") && res != "false" && res != "unit" || before.as_deref() != Some(&snap);
@@ -703,4 +706,155 @@ pub fn large_stream<H: BuildHasher + Default + Clone>(sink: &mut Sink, rng: &mut
             }
         }
     }
+}
+
+
+/// table well-formedness as the crate's unchecked accesses need it
+pub fn wf_of<H: BuildHasher + Default + Clone>(q: &AnyQ<H>) -> bool {
+    // after a panic inside IndexMap's own `retain` even reading the lengths can trip IndexMap's debug assertions
+    let snap = catch_unwind(AssertUnwindSafe(|| match q {
+        AnyQ::Pq(x) => x.verif_snapshot(),
+        AnyQ::Dpq(x) => x.verif_snapshot(),
+    }));
+    let (heap, qp, size, maplen) = match snap {
+        Ok(x) => x,
+        Err(_) => return false,
+    };
+    if heap.len() != size || qp.len() != size || maplen != size {
+        return false;
+    }
+    for (p, i) in heap.iter().enumerate() {
+        if *i >= size || qp[*i] != p {
+            return false;
+        }
+    }
+    true
+}
+
+/// operations whose sift-up (or predicate loop) can be interrupted between table updates: the post-crash state of
+/// these is known not to be well-formed on the unchanged tree (KNOWN_FINDINGS.json, property C10)
+pub fn crash_key(kind: Kind, op: &Op, cmp: bool) -> String {
+    format!("{}.{}/{}", kind.name(), op.name(), if cmp { "cmp" } else { "cb" })
+}
+
+/// C10: for reachable states, every operation, every index k of the user callback that panics: state after
+/// `catch_unwind`, then continuations (fault-free and faulty) and drop, with live-object accounting
+pub fn crash_stream<H: BuildHasher + Default + Clone>(sink: &mut Sink, rng: &mut Rng, kinds: &[Kind], ncases: u64, max_k: u64) {
+    TRACK.with(|t| t.set(true));
+    for c in 0..ncases {
+        if sink.full() { break; }
+        let mut r = rng.fork(c);
+        let kind = *r.pick(kinds);
+        let pq = kind == Kind::Pq;
+        let pf = Profile { universe: *r.pick(&[4u64, 8, 16, 40]), prio: *r.pick(&[PrioMode::Small(3), PrioMode::Small(20), PrioMode::Wide]), absent_pct: 5, weights: core_weights() };
+        // the state the faulty operation starts from
+        let n0 = *r.pick(&[0u64, 1, 2, 3, 5, 8, 12, 20, 40]);
+        let xs0: Vec<E> = (0..n0).map(|k| (k, 0, gen_prio(&mut r, pf.prio))).collect();
+        let nprefix = r.below(6);
+        let prefix: Vec<Op> = {
+            let mut q: AnyQ<H> = AnyQ::new(kind);
+            let _ = std::panic::catch_unwind(AssertUnwindSafe(|| apply(&mut q, &Op::FromVec(xs0.clone()), Lookup::Owned)));
+            let mut v = vec![Op::FromVec(xs0.clone())];
+            for _ in 0..nprefix {
+                let op = gen_op(&mut r, &q, &pf);
+                if matches!(op, Op::IterMut { forget: true, .. } | Op::Drain { forget: true, .. }) { continue; }
+                let _ = std::panic::catch_unwind(AssertUnwindSafe(|| apply(&mut q, &op, Lookup::Owned)));
+                v.push(op);
+            }
+            v
+        };
+        let build = |sink: &mut Sink| -> Option<AnyQ<H>> {
+            let mut q: AnyQ<H> = AnyQ::new(kind);
+            for op in &prefix {
+                if !sink.step(&mut q, op, Lookup::Owned) { return None; }
+            }
+            Some(q)
+        };
+        // candidate faulty operations
+        let qtmp: AnyQ<H> = { let mut q = AnyQ::new(kind); for op in &prefix { let _ = std::panic::catch_unwind(AssertUnwindSafe(|| apply(&mut q, op, Lookup::Owned))); } q };
+        let len = qtmp.len() as u64;
+        let present = present_keys(&qtmp);
+        let anykey = |r: &mut Rng| if !present.is_empty() && r.chance(4, 5) { *r.pick(&present) } else { pf.universe + r.below(3) };
+        let ext = |r: &mut Rng| *r.pick(&[i64::MAX, i64::MIN, 0, 1, 2]);
+        let w = W { prio: Some(ext(&mut r)), payload: None };
+        let big: Vec<E> = (0..r.range(25, 60)).map(|j| (if j % 3 == 0 { j % (len + 1) } else { 1000 + j }, 7, gen_prio(&mut r, pf.prio))).collect();
+        let small: Vec<E> = (0..r.range(1, 5)).map(|j| (if j % 2 == 0 { anykey(&mut r) } else { 2000 + j }, 7, gen_prio(&mut r, pf.prio))).collect();
+        let nb = big.len() as u64;
+        let ns = small.len() as u64;
+        let mut cands: Vec<Op> = vec![
+            Op::Push((pf.universe + 50, 0, ext(&mut r))), Op::Push((anykey(&mut r), 0, ext(&mut r))),
+            Op::PushIncrease((anykey(&mut r), 0, i64::MAX)), Op::PushDecrease((anykey(&mut r), 0, i64::MIN)),
+            Op::ChangePriority(anykey(&mut r), ext(&mut r)), Op::ChangePriorityBy(anykey(&mut r), ext(&mut r)),
+            Op::Remove(anykey(&mut r)),
+            Op::RetainMut(present.iter().map(|k| Row { key: *k, keep: k % 3 != 0, w: W { prio: Some((*k as i64 * 7) % 5), payload: None } }).collect()),
+            Op::Retain(present.iter().map(|k| Row { key: *k, keep: k % 2 != 0, w: W::default() }).collect()),
+            Op::IterMut { forget: false, prog: (0..len.min(6)).map(|j| (Call::F, W { prio: Some(100 - j as i64), payload: None })).collect() },
+            Op::IterMut { forget: true, prog: (0..len.min(3)).map(|j| (Call::F, W { prio: Some(100 - j as i64), payload: None })).collect() },
+            Op::Drain { forget: true, calls: vec![Call::F] },
+            Op::Extend { lo: nb, hi: Some(nb), xs: big.clone() }, Op::Extend { lo: 0, hi: None, xs: big.clone() },
+            Op::Extend { lo: ns, hi: Some(ns), xs: small.clone() },
+            Op::FromVec(big.clone()), Op::FromIter { lo: nb, hi: Some(nb), xs: big.clone() }, Op::Append(small.clone()), Op::Append(big.clone()),
+            Op::Convert, Op::SerdeRt(kind.other()),
+        ];
+        if pq {
+            cands.extend([Op::Pop, Op::PopIf(0, w, true), Op::PopIf(0, w, false), Op::IntoSortedVec]);
+        } else {
+            cands.extend([Op::PopMin, Op::PopMax, Op::PeekMax, Op::PopIf(1, w, true), Op::PopIf(1, w, false), Op::PopIf(2, w, true), Op::PopIf(2, w, false), Op::IntoAscVec]);
+        }
+        let op = r.pick(&cands).clone();
+        // how many comparisons / callbacks does it perform without a fault?
+        let (kc, kb) = {
+            let mut q = qtmp.clone_q();
+            let c0 = cmp_count();
+            let b0 = CBCOUNT.with(|c| c.get());
+            let _ = std::panic::catch_unwind(AssertUnwindSafe(|| apply(&mut q, &op, Lookup::Owned)));
+            (cmp_count() - c0, CBCOUNT.with(|c| c.get()) - b0)
+        };
+        drop(qtmp);
+        let mut plans: Vec<(bool, u64)> = vec![];
+        for k in 1..=kc.min(max_k) { plans.push((true, k)); }
+        if kc > max_k { plans.push((true, kc)); plans.push((true, r.range(max_k, kc))); }
+        for k in 1..=kb.min(max_k) { plans.push((false, k)); }
+        if matches!(op, Op::IterMut { forget: true, .. } | Op::Drain { forget: true, .. }) { plans.push((false, u64::MAX)); } // leak, no panic
+        for (cmp, k) in plans {
+            if sink.full() { break; }
+            if !sink.case(kind) { continue; }
+            sink.core_only = false;
+            let live0 = LIVE.with(|l| l.get());
+            let mut q = match build(sink) { Some(q) => q, None => continue };
+            sink.core_only = true;
+            let cop = if k == u64::MAX { op.clone() } else { Op::Crash { cmp, k, op: Box::new(op.clone()) } };
+            let faulted = !sink.step(&mut q, &cop, Lookup::Owned);
+            let mut wf = wf_of(&q);
+            let st = catch_unwind(AssertUnwindSafe(|| q.snapshot_core())).unwrap_or_else(|_| "unreadable".into());
+            sink.raw(&format!("#crash key {} faulted {} wf {} state {}", crash_key(kind, &op, cmp), faulted as u8, wf as u8, st));
+            if wf {
+                // continuations: fault-free and faulty operations, then drop
+                let pf2 = Profile { weights: weights_with(&[("serde_rt", 1), ("deser", 1)]), ..pf.clone() };
+                for j in 0..r.range(3, 10) {
+                    let nop = gen_op(&mut r, &q, &pf2);
+                    if matches!(nop, Op::IterMut { forget: true, .. } | Op::Drain { forget: true, .. }) { continue; }
+                    let crash = j % 4 == 3;
+                    let kq = q.kind();
+                    let nop2 = if crash { Op::Crash { cmp: true, k: 1 + r.below(4), op: Box::new(nop.clone()) } } else { nop.clone() };
+                    let ok = sink.step(&mut q, &nop2, Lookup::Owned);
+                    wf = wf_of(&q);
+                    if crash {
+                        let st = catch_unwind(AssertUnwindSafe(|| q.snapshot_core())).unwrap_or_else(|_| "unreadable".into());
+                        sink.raw(&format!("#crash key {} faulted {} wf {} state {}", crash_key(kq, &nop, true), (!ok) as u8, wf as u8, st));
+                    } else if !wf {
+                        let st = catch_unwind(AssertUnwindSafe(|| q.snapshot_core())).unwrap_or_else(|_| "unreadable".into());
+                        sink.raw(&format!("#broken-by-faultfree-op wf 0 state {}", st));
+                    }
+                    if !wf { break; }
+                }
+            }
+            let leaked = matches!(op, Op::IterMut { forget: true, .. } | Op::Drain { forget: true, .. });
+            let _ = catch_unwind(AssertUnwindSafe(move || drop(q)));
+            let live1 = LIVE.with(|l| l.get());
+            sink.raw(&format!("#end live_delta {} leaked_iterator {}", live1 - live0, leaked as u8));
+            sink.core_only = false;
+        }
+    }
+    TRACK.with(|t| t.set(false));
 }
